@@ -17,6 +17,7 @@
 //           `u` leaves an array slot / an object member undefined.
 //           p <doc> : a pointer value (SetPointerToValue) to a separately owned value built from <doc>
 #include <new>
+#include "ledger.hpp"
 #include "common.hpp"
 #include <memory>
 #include <thread>
